@@ -169,7 +169,135 @@ def validate_fenced(chk: Check, n: int) -> None:
         chk.broken.append(f"specification Model/BlockRead.v disagrees with the parser: {nb} documents")
 
 
+def validate_atx(chk: Check, n: int) -> None:
+    """read_atx against Marko on lines without inline markup: level, and content up to the removal of backslash escapes"""
+    import marko.inline
+    rng = chk.rng
+    alpha = "ab #\\\t"
+    lines = {"# a", "## a #", "## a \\#", "### a ###   ", "#a", "####### a", "#", "## ", "#\ta", "   # a", "    # a", "## a#", "## #", "## \\###", "# a \\# #"}
+    while len(lines) < n:
+        k = rng.choice([1, 2, 3, 4, 6, 7])
+        body = "".join(rng.choice(alpha) for _ in range(rng.randint(0, 7)))
+        lines.add(rng.choice(["", " ", "   ", "    "]) + "#" * k + rng.choice(["", " ", "\t", "  "]) + body)
+    lines = sorted(l for l in lines if l.strip())
+    ans = model_batch(["read_atx " + enc_str(l) for l in lines], shards=1)
+    nb = 0
+    nsome = 0
+    for l, a in zip(lines, ans):
+        tk = Toks(a)
+        got = tk.opt(lambda: (tk.int(), tk.str()))
+        chk.count()
+        t = mdast.doc_tree(l + "\n")
+        kids = [k for k in t["c"] if k["t"] != "BlankLine"]
+        first = kids[0] if kids else None
+        is_h = first is not None and first["t"] == "Heading"
+        if got is None:
+            ok = not is_h
+        else:
+            nsome += 1
+            text = "".join(c.get("s", "") for c in first.get("c", [])) if is_h else None
+            ok = is_h and first.get("level") == got[0] and text == marko.inline.Literal.strip_backslash(got[1])
+        if not ok:
+            nb += 1
+            if nb <= 5:
+                chk.notes.append(f"BlockRead spec (ATX): {l!r}: specification reads {got!r}, parser reads {first!r}")
+    chk.hist("spec_headings_read", nsome)
+    chk.port_stat("spec validation: read_atx = Marko's ATX heading", len(lines), nb)
+    if nb:
+        chk.broken.append(f"specification Model/BlockRead.v (ATX heading) disagrees with the parser: {nb} lines")
+
+
+def validate_ol_marker(chk: Check, n: int) -> None:
+    """read_ol_marker against Marko: a line 'N. x' / 'N) x' starts an ordered list with that start number, whose item content
+    begins at the marker width (a second paragraph indented by that width belongs to the item, one column less does not)"""
+    rng = chk.rng
+    lines = {"1. x", "0. x", "9. x", "10. x", "007. x", "123456789. x", "1234567890. x", "1) x", "1.x", "1 . x", "a1. x", "12: x", "1.  x", "99) x"}
+    while len(lines) < n:
+        num = "".join(rng.choice("0123456789") for _ in range(rng.choice([1, 1, 2, 3, 5, 9, 10])))
+        lines.add(num + rng.choice([".", ")", ":", ""]) + rng.choice([" ", " ", "", "  "]) + rng.choice(["x", "x y", ""]))
+    lines = sorted(l for l in lines if l.strip())
+    ans = model_batch(["read_ol_marker " + enc_str(l) for l in lines], shards=1)
+    nb = 0
+    nsome = 0
+    for l, a in zip(lines, ans):
+        tk = Toks(a)
+        got = tk.opt(lambda: (tk.int(), tk.int()))
+        chk.count()
+        rest = l[got[1]:] if got else ""
+        if got is not None and not rest.strip():
+            continue                # an empty item: the content column rule differs (outside what the theorem uses)
+        if got is not None and rest.startswith(" "):
+            continue                # more than one space after the marker: the content column is further right
+        t = mdast.doc_tree(l + "\n")
+        kids = [k for k in t["c"] if k["t"] != "BlankLine"]
+        first = kids[0] if kids else None
+        is_ol = first is not None and first["t"] == "List" and first.get("ordered")
+        if got is None:
+            # the specification only describes a marker followed by a space and content (an empty item, 'N.' at the end of a line, is a list too)
+            ok = (not is_ol) or bool(__import__("re").fullmatch(r"\d{1,9}[.)]\s*", l))
+        else:
+            nsome += 1
+            ok = is_ol and int(first.get("start")) == got[0]
+            if ok:
+                t2 = mdast.doc_tree(l + "\n\n" + " " * got[1] + "second\n")
+                k2 = [k for k in t2["c"] if k["t"] != "BlankLine"]
+                t3 = mdast.doc_tree(l + "\n\n" + " " * (got[1] - 1) + "second\n")
+                k3 = [k for k in t3["c"] if k["t"] != "BlankLine"]
+                ok = len(k2) == 1 and len(k3) == 2
+        if not ok:
+            nb += 1
+            if nb <= 5:
+                chk.notes.append(f"BlockRead spec (ordered marker): {l!r}: specification reads {got!r}, parser reads {first!r}")
+    chk.hist("spec_markers_read", nsome)
+    chk.port_stat("spec validation: read_ol_marker = Marko's ordered list start and content column", len(lines), nb)
+    if nb:
+        chk.broken.append(f"specification Model/BlockRead.v (ordered list marker) disagrees with the parser: {nb} lines")
+
+
+def validate_row(chk: Check, n: int) -> None:
+    """read_row against Marko's GFM table: same number of cells, same text in each (cells without inline markup; a backslash only before a pipe)"""
+    rng = chk.rng
+    toks = ["a", "b", " ", "\\|", "c d", "  ", "x"]
+    rows = {"| a | b |", "| a \\| b | c |", "| \\| | x |", "|a|b|", "| a |  b  |"}
+    while len(rows) < n:
+        k = rng.choice([1, 2, 3, 4])
+        cells = ["".join(rng.choice(toks) for _ in range(rng.randint(1, 4))) for _ in range(k)]
+        rows.add("|" + "|".join(rng.choice(["", " "]) + c + rng.choice(["", " "]) for c in cells) + "|")
+    rows = sorted(rows)
+    ans = model_batch(["read_row " + enc_str(r) for r in rows], shards=1)
+    nb = 0
+    nsome = 0
+    for r, a in zip(rows, ans):
+        tk = Toks(a)
+        got = tk.opt(tk.strs)
+        chk.count()
+        if got is None or any(not c.strip() for c in got):
+            continue                      # empty cells: the parser's treatment of all-blank cells is outside what the theorem uses
+        k = len(got)
+        doc = "|" + "|".join(["h"] * k) + "|\n|" + "|".join(["---"] * k) + "|\n" + r + "\n"
+        t = mdast.doc_tree(doc)
+        kids = [x for x in t["c"] if x["t"] != "BlankLine"]
+        first = kids[0] if kids else None
+        ok = first is not None and first["t"] == "Table"
+        if ok:
+            nsome += 1
+            body = first["c"][-1]
+            texts = ["".join(x.get("s", "") for x in cell.get("c", [])) for cell in body.get("c", [])]
+            ok = [x.strip() for x in texts] == [c.strip() for c in got]
+        if not ok:
+            nb += 1
+            if nb <= 5:
+                chk.notes.append(f"BlockRead spec (table row): {r!r}: specification reads {got!r}, parser reads {first!r}"[:600])
+    chk.hist("spec_rows_read", nsome)
+    chk.port_stat("spec validation: read_row = Marko's table cells", len(rows), nb)
+    if nb:
+        chk.broken.append(f"specification Model/BlockRead.v (table row) disagrees with the parser: {nb} rows")
+
+
 def validate_all(chk: Check, n: int) -> None:
+    validate_row(chk, max(200, n // 3))
+    validate_atx(chk, n)
+    validate_ol_marker(chk, max(200, n // 4))
     validate_code_span(chk, n)
     validate_destination_title(chk, n)
     validate_fenced(chk, n)
